@@ -23,21 +23,31 @@ class SymCoverage(Coverage):
     single_copy / percentage / basic_filter / __getitem__ / dump are the real ones.
     """
 
-    def __init__(self, gene, profile, counts, totals, sam=None, identity_filter=True):
+    def __init__(self, gene, profile, counts, totals, sam=None, identity_filter=True,
+                 lowq=None):
         Coverage.__init__(self, gene, profile, sam, {}, None, {})
-        self._sc = dict(counts)  # (pos, op) -> S | number
+        self._sc = dict(counts)  # (pos, op) -> S | number   (qualifying observations)
         self._tot = dict(totals)  # pos -> S | number
         self._identity = identity_filter
+        # optional observations below the quality thresholds: {(pos, op): S}; they are
+        # part of this (raw) evidence and disappear in filtered(quality_filter)
+        self._lowq = dict(lowq or {})
         self._coverage = {}
         for (pos, op) in counts:
             self._coverage.setdefault(pos, {})[op] = None
 
     def coverage(self, mut):
-        return self._sc.get((mut.pos, mut.op), 0)
+        c = self._sc.get((mut.pos, mut.op), 0)
+        lq = self._lowq.get((mut.pos, mut.op))
+        return c if lq is None else c + lq
 
     def total(self, m):
         pos = m.pos if hasattr(m, "pos") else m
-        return self._tot.get(pos, 0)
+        t = self._tot.get(pos, 0)
+        for (p, op), lq in self._lowq.items():
+            if p == pos and op[:3] != "ins":
+                t = t + lq
+        return t
 
     def filtered(self, fn):
         if self._identity:
